@@ -147,6 +147,7 @@ def cases(tier, seed):
     out.append({"id": "algebra:unsupported-types", "kind": "unsup",
                 "tier": tier})
     out.append({"id": "algebra:unsigned-constants", "kind": "unsigned"})
+    out.append({"id": "gaussian:integer-typed-arguments", "kind": "gint"})
     out.append({"id": "algebra:numpy-scalar-left", "kind": "npleft",
                 "tier": tier})
     out.append({"id": "algebra:complex-constants", "kind": "cplxconst",
@@ -1510,6 +1511,42 @@ def _run_unsigned(case, ck, info):
     return digest(acc)
 
 
+def _run_gint(case, ck, info):
+    """Gaussian priors whose width or evaluation point is a NumPy integer
+    (a count, a pixel index): log-density = log(density), as for floats"""
+    from holopy.core.prior import Gaussian
+    acc = []
+    for mu, sd, pts in (
+            (0, np.int32(65536), [1, 70000, np.int32(-65536)]),
+            (np.int64(3), np.int16(300), [np.int16(200), 2.5]),
+            (0, 1, [np.int64(2 ** 32), np.int32(5), np.uint8(3)]),
+            (0.0, np.uint16(50000), [np.uint16(60000), 100.0])):
+        try:
+            P = Gaussian(mu, sd)
+        except Exception as e:
+            ck.true("gaussian-integer-arguments", False, "Gaussian(%r, %r) "
+                    "raised %s: %s" % (mu, sd, type(e).__name__, e))
+            continue
+        for p in pts:
+            z = (float(p) - float(mu)) / float(sd)
+            want = -math.log(float(sd)) - 0.5 * math.log(2 * math.pi) \
+                - 0.5 * z * z
+            try:
+                got = float(P.lnprob(p))
+                ck.trans += 1
+            except Exception as e:
+                ck.true("gaussian-integer-arguments", False, "Gaussian(%r, "
+                        "%r).lnprob(%r) raised %s: %s" %
+                        (mu, sd, p, type(e).__name__, e))
+                continue
+            ok = abs(got - want) <= 1e-12 * max(1.0, abs(want))
+            ck.true("gaussian-integer-arguments", ok, "Gaussian(%r, %r)."
+                    "lnprob(%r) = %r, the log of the density is %r" %
+                    (mu, sd, p, got, want))
+            acc.append(repr(round(want, 9)))
+    return digest(acc)
+
+
 def _run_npleft(case, ck, info):
     """a NumPy scalar as the LEFT operand: numpy dispatches to
     __array_ufunc__ instead of the reflected operator."""
@@ -2318,7 +2355,7 @@ def _run_ndarr(case, ck, info):
 RUN = {"uniform": _run_uniform, "gaussian": _run_gaussian,
        "bgauss": _run_bgauss, "bgnone": _run_bgnone, "bgrej": _run_bgrej,
        "ctor": _run_ctor, "complex": _run_complex, "ident": _run_ident,
-       "unsup": _run_unsup, "npleft": _run_npleft, "unsigned": _run_unsigned, "ndelem": _run_ndelem,
+       "unsup": _run_unsup, "npleft": _run_npleft, "unsigned": _run_unsigned, "gint": _run_gint, "ndelem": _run_ndelem,
        "cplxconst": _run_cplxconst,
        "ndarr": _run_ndarr, "tree1": _run_tree1, "tree2": _run_tree2,
        "tree2u": _run_tree2u, "tree3": _run_tree3}
